@@ -131,6 +131,35 @@ package router
 //@   callsite Limiter.AllowN?: [C15:global-charged-the-cost] arg0 == l.global && arg1 == gNow && arg2 == n
 //@   callsite ClientLimiter.AllowN?: [C15:charged-to-this-client] arg0 == l.cl && arg1 == addr && arg2 == gNow && arg3 == n
 
+// listener.Accept (HTTP/DoH): a connection reaches the server only if it was admitted - charged with the
+// listener's connection cost to the address of its remote end - or has no usable address; a refused connection
+// is closed and never returned.
+//@ func (l *listener) Accept() (c net.Conn, err error)
+//@   props C15
+//@   requires l != nil && l.Listener != nil && l.logger != nil && limOK(l.limiter)
+//@   noterm
+//@   ghost gConn net.Conn = nil
+//@   ghost gRemote net.Addr = nil
+//@   ghost gAP netip.AddrPort = nil
+//@   ghost gAdm error = nil
+//@   ghost nAsk int = 0
+//@   aftercall Listener.Accept: gConn = ret0
+//@   aftercall Listener.Accept: gAdm = nil
+//@   aftercall Listener.Accept: nAsk = 0
+//@   aftercall RemoteAddr: gRemote = ret0
+//@   aftercall netAddr2NetipAddr: gAP = ret0
+//@   oncall AllowN: nAsk = nAsk + 1
+//@   aftercall AllowN: gAdm = ret0
+//@   modifies *
+//@   ensures [C15:only-admitted-connections-are-served] err == nil ==> c == gConn && gAdm == nil && (isValidAddr(gAP.ip) ==> nAsk == 1)
+//@   callsite RemoteAddr: [C15:address-of-this-connection] arg0 == gConn
+//@   callsite netAddr2NetipAddr: [C15:connection-cost-charged-to-the-client] arg0 == gRemote
+//@   callsite AllowN: [C15:connection-cost-charged-to-the-client] arg0 == l.limiter && arg1 == gAP.ip && arg2 == l.connCost
+//@   callsite Close: [C15:only-refused-connections-are-closed] arg0 == gConn && gAdm != nil
+//@   loop 1:
+//@     modifies *
+//@     invariant l != nil && l.Listener != nil && l.logger != nil && limOK(l.limiter)
+
 // limiterAllowN: requests without a usable client address are not limited; every other request gets the
 // limiter's verdict for exactly that address and cost.
 //@ func (r *router) limiterAllowN(addr netip.Addr, n int) (err error)
@@ -729,6 +758,64 @@ package router
 //@ func debugLogServerConnClosed(c logConn, logger *zerolog.Logger, cause error)
 //@   trusted
 //@   modifies nothing
+
+// tcpServer.run (accept loop, TCP and DoT): every accepted connection is charged - 15 for TLS, 3 for plain TCP -
+// to its remote address; a refused connection is closed and never handled.
+//@ func (s *tcpServer) run() (err error)
+//@   props C15
+//@   requires s != nil && s.r != nil && s.l != nil && s.logger != nil && limOK(s.r.limiter)
+//@   noterm
+//@   ghost gConn net.Conn = nil
+//@   ghost gRemote net.Addr = nil
+//@   ghost gAP netip.AddrPort = nil
+//@   ghost gAdm error = nil
+//@   ghost nAsk int = 0
+//@   aftercall Accept: gConn = ret0
+//@   aftercall Accept: nAsk = 0
+//@   aftercall RemoteAddr?: gRemote = ret0
+//@   aftercall netAddr2NetipAddr: gAP = ret0
+//@   oncall limiterAllowN: nAsk = nAsk + 1
+//@   aftercall limiterAllowN: gAdm = ret0
+//@   modifies *
+//@   callsite RemoteAddr?: [C15:address-of-this-connection] arg0 == gConn
+//@   callsite netAddr2NetipAddr: [C15:connection-cost-charged-to-the-client] arg0 == gRemote
+//@   callsite limiterAllowN: [C15:connection-cost-charged-to-the-client] arg0 == s.r && arg1 == gAP.ip && arg2 == (s.tlsConfig != nil ? 15 : 3)
+//@   callsite go: [C15:refused-connection-not-served] nAsk == 1 && gAdm == nil
+//@   callsite Close: [C15:only-refused-connections-are-closed] arg0 == gConn && nAsk == 1 && gAdm != nil
+//@   loop 1:
+//@     modifies *
+//@     invariant s != nil && s.r != nil && s.l != nil && s.logger != nil && r == s.r && limOK(r.limiter)
+
+// tcpServer.handleConn (read loop of one connection): every query read is answered - either by its own
+// goroutine, or, when the connection already has maxConcurrent queries in flight or the limiter refuses the
+// client, at once with one REFUSED frame - and never both; a refused query is not handled.
+//@ func (s *tcpServer) handleConn(c net.Conn)
+//@   props C13 C15
+//@   requires s != nil && routerReady(s.r) && s.logger != nil && c != nil
+//@   noterm
+//@   ghost gM *dnsmsg.Msg = nil
+//@   ghost gB pool.Buffer = nil
+//@   ghost gCC int32 = 0
+//@   ghost gAdm error = nil
+//@   ghost nQ int = 0
+//@   ghost nAns int = 0
+//@   aftercall ReadMsgFromTCP: gM = ret0
+//@   aftercall ReadMsgFromTCP: gAdm = nil
+//@   aftercall ReadMsgFromTCP: nQ = nQ + (ret2 == nil ? 1 : 0)
+//@   aftercall Add: gCC = ret0
+//@   aftercall limiterAllowN: gAdm = ret0
+//@   aftercall mustHaveRespB: gB = ret0
+//@   oncall Write: nAns = nAns + 1
+//@   oncall go: nAns = nAns + 1
+//@   modifies *
+//@   ensures [C13:every-query-read-is-answered-once] nAns == nQ
+//@   callsite limiterAllowN: [C15:query-cost-charged-to-the-client] arg0 == s.r && arg2 == 2
+//@   callsite mustHaveRespB: [C13,C15:refused-answer] arg0 == gM && arg1 == nil && arg2 == dnsmsg.RCodeRefused && arg3 == true
+//@   callsite Write: [C13:over-limit-or-refused-by-the-limiter] arg1 == gB && len(arg1) >= 14 && BE16(arg1, 0) == uint16(len(arg1) - 2)
+//@   callsite go: [C13,C15:refused-query-not-handled] gAdm == nil
+//@   loop 1:
+//@     modifies *
+//@     invariant s != nil && routerReady(s.r) && s.logger != nil && c != nil && br != nil && nAns == nQ
 
 // quicServer.run (accept loop): every accepted connection is charged to its REMOTE address; a refused one is
 // closed and never handled.
